@@ -184,10 +184,11 @@ namespace DaeVerif.C03
 
 /-! ## conntrack: effect on other keys and other maps -/
 
-/-- everything of the world except `conn_state_map`, the overflow counters and the event log -/
+/-- everything of the world the verdicts depend on besides `conn_state_map`: all of it except
+`conn_state_map`, `cookie_pid_map`, the overflow counters and the event log -/
 def World.rest (w : World) : Nat × List (Key × Handoff) × Nat × List (RKey × REntry) × Nat ×
-    List (Nat × PidPname) × List (Nat × Nat) × Param × Nat :=
-  (w.connCap, w.handoff, w.handoffCap, w.rtrack, w.rtrackCap, w.cookies, w.alive, w.param, w.now)
+    List (Nat × Nat) × Param × Nat :=
+  (w.connCap, w.handoff, w.handoffCap, w.rtrack, w.rtrackCap, w.alive, w.param, w.now)
 
 theorem createConn_lookup_ne (w : World) (k k' : Key) (ns : ConnState) (udp : Bool) (pid : Nat) (h : k' ≠ k) :
     alookup (createConn w k ns udp pid).1.conn k' = alookup w.conn k' := by
